@@ -272,3 +272,61 @@ func ZZ_C13_LoadingWithWriter() {
 	v, err := ls.Get(context.Background(), 1)
 	vfAssert("key-usable-afterwards", err == nil && v == 888)
 }
+
+type zzIdErr struct{ id int }
+
+func (e *zzIdErr) Error() string { return "load failed" }
+
+// ZZ_C13_NotCached: every caller calls again as soon as its first call has returned. A call never receives the
+// result of a loader run that was already over (handed to some caller) when the call started: neither a value nor an error is cached by the
+// duplicate-suppression table.
+func ZZ_C13_NotCached() {
+	vfSetPoolMode(vfConfig("POOLMODE", 1))
+	vfSetPreemptions(vfConfig("PRE", 1))
+	N := vfConfig("CALLERS", 2)
+	g := NewGroup[uint64, uint64]()
+	fail := vfChoose("outcome", 2) == 1
+	started, delivered := 0, 0 // delivered: highest run whose result some caller has already been handed
+	fn := func() (uint64, error) {
+		started++
+		me := started
+		vfYield()
+		if fail {
+			return 0, &zzIdErr{me}
+		}
+		return uint64(me), nil
+	}
+	done := make(chan int, N)
+	for i := 0; i < N; i++ {
+		go func() {
+			for round := 0; round < 2; round++ {
+				deliveredAtStart := delivered
+				v, err, _ := g.Do(1, fn)
+				id := int(v)
+				if fail {
+					ie, ok := err.(*zzIdErr)
+					vfAssert("error-reaches-caller", ok)
+					if ok {
+						id = ie.id
+					}
+				} else {
+					vfAssert("value-reaches-caller", err == nil)
+				}
+				// a run whose result had already been handed to some caller when this call started is over:
+				// this call must be served by a later run (a run that is still being wound up may be shared)
+				vfAssert("result-of-a-run-not-over-before-the-call", id > deliveredAtStart)
+				if id > delivered {
+					delivered = id
+				}
+			}
+			done <- 1
+		}()
+	}
+	for i := 0; i < N; i++ {
+		<-done
+	}
+	vfSetPreemptions(0)
+	vfReach("all-callers-finished")
+	_, inflight := g.m[1]
+	vfAssert("no-call-left-in-flight", !inflight)
+}
